@@ -1,9 +1,15 @@
 #!/usr/bin/env python3
 """Assemble /verif/seeded/<id>/ from a sub-agent's delivery, my own confirmation record and the
 result of running the property's quick check against the change.
-usage: make_seeded.py <mutant dir> <confirm.json> <detect.txt> <id>"""
+usage: make_seeded.py <mutant dir> <confirm.json> <detect.txt> <id> [<other property> <detect.txt of that property's check>] [--note <text>]"""
 import json, os, re, shutil, sys
 md, conf, det, ident = sys.argv[1:5]
+rest = sys.argv[5:]
+note = None
+if "--note" in rest:
+    i = rest.index("--note")
+    note = rest[i + 1]
+    rest = rest[:i]
 out = "/verif/seeded/" + ident
 shutil.rmtree(out, ignore_errors=True)
 os.makedirs(out + "/demo")
@@ -48,5 +54,14 @@ m = {
         "summary": summary[0] if summary else None,
     },
 }
+def summarise(text):
+    v = [l for l in text.splitlines() if l.startswith("violation ")]
+    sg = sorted({re.match(r"violation (\S+?):? ", l + " ").group(1).rstrip(":") for l in v})
+    return bool(v), sg
+if len(rest) >= 2:
+    det2, sg2 = summarise(open(rest[1]).read())
+    m["other_check_result"] = {"command": "./check %s quick" % rest[0], "detected": det2, "signatures": sg2[:8]}
+if note:
+    m["note"] = note
 json.dump(m, open(out + "/meta.json", "w"), indent=1)
 print(ident, "detected" if viol else "MISSED", len(sigs))
